@@ -15,6 +15,8 @@ for d in sorted(glob.glob(os.path.join(VERIF, 'seeded', '*'))):
     conf = m.get('confirmed', {})
     suite = conf.get('suite')
     st = 'demo PASS→FAIL' if conf.get('demo_unchanged', {}).get('exit') == 0 and conf.get('demo_patched', {}).get('exit') not in (0, None) else 'demo ?'
+    if conf.get('note'):
+        st += ' (recorded against %s; neutralised by a later fix: see meta.json)' % conf.get('repo_commit')
     if suite:
         st += '; suite %d/%d stable (+%d in isolation)' % (suite['passed_in_full_run'], suite['stable_total'], suite['rerun_in_isolation'] - len(suite['still_failing']))
         if suite['still_failing']:
